@@ -5,6 +5,7 @@ import Tickit.Proof.LifeStep
 import Tickit.Proof.LifePens
 import Tickit.Proof.LifeKeys
 import Tickit.Proof.LifeMouse
+import Tickit.Proof.LifeTopSw
 import Tickit.Gen.Life
 /-
   Property C08 — no API history touches freed or foreign memory, and everything is released.
@@ -387,11 +388,21 @@ example : leftAfter extracted
 /-! ## the process-wide list of SIGWINCH observers (`tickit_term_observe_sigwinch`, src/term.c) and
   `tickit_term_set_input_fd` — model layer `Model/LifeTop.lean`
 
-  The list is modelled with its pointers.  The general statement (`sigwinch_list_safe`) is open; what is proved
-  here are the two kernel-checked counterexamples of the unrepaired code (known finding `sigwinch_stale_next`), that
-  the same histories are harmless once the unlinked terminal's link is reset
-  (fixes/C08_sigwinch_stale_next.patch), and the case the seeded regression `while -> if` breaks: a terminal that
-  stands third in the list is really unlinked. -/
+  The list is modelled with its pointers.  Proved here: the two kernel-checked counterexamples of the code before the
+  repair (a2a7841 in /repo: the unlinked terminal's link is reset), that the same histories are harmless after it, the
+  case the seeded regression `while -> if` breaks (a terminal that stands third in the list is really unlinked), and
+  the general statement `sigwinch_list_safe`. -/
+
+/-- The configuration of the layer `Model/LifeTop.lean` that mirrors the source tree (the driver runs the same). -/
+def extractedTop : TCfg :=
+  { base := extracted, rootForgetsTickit := Gen.Life.rootForgetsTickit, sigwinchClearsNext := Gen.Life.sigwinchClearsNext,
+    setInputFdClearsTermkey := Gen.Life.setInputFdClearsTermkey }
+
+/-- The source tree contains the repairs of this layer (a tree that loses one breaks this at build time): the unlinked
+    terminal's link is reset, `tickit_term_set_input_fd` forgets the TermKey it destroys, a root window that outlives
+    its toplevel instance forgets it. -/
+theorem extractedTop_repaired : extractedTop.sigwinchClearsNext = true ∧ extractedTop.setInputFdClearsTermkey = true ∧
+    extractedTop.rootForgetsTickit = true := ⟨by decide, by decide, by decide⟩
 
 /-- Three terminals: the main one (0) and two further ones (1, 2), nobody observing. -/
 def sw0 : Top := { xterms := #[{}, {}], sw := #[{}, {}, {}] }
@@ -429,22 +440,53 @@ theorem sigwinch_third_observer_unlinked (clears : Bool) :
     (swSignal t).fail = none := by
   cases clears <;> decide +kernel
 
-/-- OPEN (statement only): in the repaired configuration every history of observe / stop observing / destroy / SIGWINCH
-    over any number of terminals keeps the list a duplicate-free chain of exactly the live observing terminals, so no
-    walk fails.  Missing: the invariant (chain of `next` links from `swFirst` = the observers, links of the others
-    `none`) carried through `swAppend` / `swUnlink`; covered by correspondence (generator family `sigwinch`, and the
-    small-scope enumeration of the thorough tier). -/
-def sigwinch_list_safe : Prop :=
-  ∀ (tc : TCfg), tc.sigwinchClearsNext = true → ∀ (n : Nat) (ops : List (Nat × Nat)),
-    let run := ops.foldl (fun (t : Top) (o : Nat × Nat) =>
-      if t.fail.isSome then t
-      else match o.1 with
-        | 0 => swObserve t (o.2 + 1)
-        | 1 => swUnobserve tc t (o.2 + 1)
-        | 2 => if heldX t o.2 then xUnref tc t o.2 else t
-        | _ => swSignal t)
-      ({ xterms := Array.replicate n {}, sw := Array.replicate (n + 1) {} } : Top)
-    run.fail = none
+/-- **sigwinch_list_safe**: with the unlinked terminal's link reset (the repaired `tickit_term_observe_sigwinch`), every
+    history of creating further terminals, taking and dropping references to them (the last one destroys the
+    terminal, which stops its observation first), observing and no longer observing SIGWINCH on any of them and on the
+    main terminal, and SIGWINCH itself, over any number of terminals and in any order, runs to the end with no walk of
+    the observer list failing (`fail = none`: no link of a freed terminal is read, no NULL is followed, every walk
+    ends), and the list stays what it should be (`SwOk`, Proof/LifeSigwinch.lean): the links from
+    `first_sigwinch_observer` are a chain without repetition of exactly the terminals whose `observe_winch` is set,
+    all of them alive; every other terminal's link is NULL; the handler is installed exactly while the chain is not
+    empty.  The application passes only handles it holds (`xstep` skips the others, as the harness does) - the earlier
+    statement of this name lacked that guard and was false for a handle that does not exist.  The destruction of the
+    main terminal while it observes is part of `top_no_ub` below. -/
+theorem sigwinch_list_safe (ops : List XOp) (hops : ∀ op ∈ ops, op.isSw = true) (top : Top) (h : SwOk top) :
+    ∃ top', xrunOps extractedTop top ops = .ok top' ∧ SwOk top' ∧ top'.fail = none := by
+  obtain ⟨top', hr, ok, _⟩ := xrun_sw extractedTop_repaired.1 ops top h hops
+  exact ⟨top', hr, ok, ok.1⟩
+
+/-- What `SwOk` says, spelled out on the state: along the links from `first_sigwinch_observer` lie exactly the
+    terminals that observe, once each, none of them freed. -/
+theorem swOk_spelled_out {top : Top} (h : SwOk top) : top.fail = none ∧ ∃ l : List Nat,
+    ChainF (fun c => (swNode top c).next) top.swFirst l ∧ l.Nodup ∧ (∀ c, c ∈ l ↔ (swNode top c).obs = true) ∧
+    (∀ c ∈ l, swFreed top c = false) ∧ (∀ c, c ∉ l → (swNode top c).next = none) ∧ top.swHandler = top.swFirst.isSome := by
+  obtain ⟨hf, l, inv, h0⟩ := h
+  refine ⟨hf, l, inv.chain, inv.nodup, ?_, inv.allLive h0, fun c hc => (inv.out c hc).1, inv.handler⟩
+  intro c
+  constructor
+  · exact fun hc => (inv.mem c hc).2
+  · intro ho
+    apply Classical.byContradiction
+    intro hn
+    have := (inv.out c hn).2
+    unfold swObs at this
+    rw [this] at ho; cases ho
+
+/-- The state every history starts from satisfies it. -/
+example : SwOk ({} : Top) := swOk_init
+
+/-- Non-vacuity: the two histories of the known finding `sigwinch_stale_next` (and a third observer leaving) are
+    histories of this kind, and in the repaired configuration they run to the end. -/
+example : ∀ op ∈ [XOp.xnew, .xnew, .xobs 0 true, .xobs 1 true, .xobs 0 false, .xunref 1, .xobs 0 true, .winch,
+    .tobs true, .tobs false, .tobs true, .winch, .xref 0, .xunref 0, .xunref 0, .winch], op.isSw = true := by
+  intro op hop; simp at hop
+  rcases hop with rfl | rfl | rfl | rfl | rfl | rfl | rfl | rfl | rfl | rfl | rfl | rfl | rfl | rfl | rfl | rfl <;> rfl
+
+example : (match xrunOps extractedTop {} [.xnew, .xnew, .xobs 0 true, .xobs 1 true, .xobs 0 false, .xunref 1, .xobs 0 true, .winch,
+    .tobs true, .tobs false, .tobs true, .winch, .xref 0, .xunref 0, .xunref 0, .winch] with
+    | .ok t => (t.fail, t.swFirst, t.sw.map (·.next), t.swHandler) | _ => (none, none, #[], false))
+    = (none, some 0, #[none, none, none], true) := by decide +kernel
 
 /-- `tickit_term_set_input_fd` on a terminal that has its TermKey: the unrepaired code uses the TermKey it has
     destroyed (known finding `set_input_fd_termkey`), whatever the state. -/
